@@ -18,7 +18,8 @@ def run(res):
                  "awaiting RW-lock with writer preference, wait group), validated on every run against the real client",
                  "fault-injection harness vh-c14: real client over in-memory gRPC (bufconn), stream interceptor that fails / delays "
                  "SendMsg and RecvMsg at a chosen index, scripted server ending the RPC with a status, watchdogs, goroutine census"],
-        assumptions=["PARTIAL claim: the Go scheduler, the sync.RWMutex writer preference and gRPC's stream semantics are runtime facts "
+        assumptions=["the application's Done() channel is obtained once, when the client is created, and must still be the one that is signalled after Reset + Connect (checked when the reconnected client ends)",
+                     "PARTIAL claim: the Go scheduler, the sync.RWMutex writer preference and gRPC's stream semantics are runtime facts "
                      "taken from their documentation; the theorems are about the model, tied to the code by the outcome comparison",
                      "clients created with options (PersistEntries / FIBACK / ElectedPrimaryClient): the session-parameters and election-id messages that "
                      "StartSending queues are requests 0 (and 1) of the exchange in the model (one response each); that Reset leaves no stale election / "
